@@ -246,6 +246,34 @@ func runC16(c *Ctx) {
 			"append is dominated by the true edge of WithinConfidenceThreshold(v.Confidence) for the appended v", "a match can be appended without passing the threshold test on its own confidence")
 	}
 	c.R.RequireMin("R16.1", "appends to the result of License.MultipleMatch", n, 1)
+	// ... and what is returned is that list (or nothing): built by this call from nil through the guarded appends
+	nRet := 0
+	for _, b := range mm.Blocks {
+		ret, ok := b.Instrs[len(b.Instrs)-1].(*ssa.Return)
+		if !ok || len(ret.Results) != 1 {
+			continue
+		}
+		nRet++
+		bad := ""
+		for v := range sliceFamily(ret.Results[0]) {
+			switch x := v.(type) {
+			case *ssa.Phi:
+			case *ssa.Const:
+				if x.Value != nil {
+					bad = "a constant"
+				}
+			case *ssa.Call:
+				if bi, isB := x.Call.Value.(*ssa.Builtin); !isB || bi.Name() != "append" {
+					bad = "the result of " + core.StaticCalleeName(&x.Call)
+				}
+			default:
+				bad = eng.Describe(v)
+			}
+		}
+		c.R.Check(bad == "", "R16.1", "License.MultipleMatch returns the list it filtered in this call (or nil)", p.Pos(ret.Pos()), "the result is built from nil by the guarded appends only",
+			"the returned matches come from "+bad+", not from the list this call filtered against the current Threshold (a cached or shared result): matches below the threshold in force can be returned")
+	}
+	c.R.RequireMin("R16.1", "return statements of License.MultipleMatch", nRet, 1)
 	// shape of the predicate: conf > T  ||  |conf - T| < eps
 	gt, eq := false, false
 	for _, b := range wct.Blocks {
